@@ -7,11 +7,17 @@ Fault space (finite, independent of VERIF_SEED): for every seed document of sim.
     missing object, to an object whose value is a reference to itself, to a 2- or 3-object reference loop, and to a chain that
     runs into a loop it is not part of (rho shape);
   * for every stream: a flipped byte and a cut at each of <= 16 payload positions, wrong /Length (+1, -1, 0, huge).
-Thorough enumerates all of it; quick takes a VERIF_SEED-chosen sample plus all truncation points of two seeds.
+    plus container, trailer and inline-image faults (see payload_faults).
+Thorough enumerates all of it; quick runs all faults and the truncation points of two seeds (plus a stride of samples).
 Every faulted document runs through extract_text, extract_pages (consumed) and extract_text_to_fp(xml) under the
-step clock.  Oracle: returns or raises a PSException subclass, within steps <= STEP_K * (len(bytes) + STEP_C).
+step clock; documents of the seeds that hold images also through extract_text_to_fp(output_dir=scratch), i.e. the
+image export (scratch directory per case, file size capped by RLIMIT_FSIZE).
+Oracle: returns or raises a PSException subclass, within steps <= STEP_K * (len(bytes) + STEP_C); the export may also
+answer with the documented "install Pillow" ImportError (Pillow is absent here) or hit the file-size cap, and the disk
+space it really allocates must stay below OUT_K * (len(bytes) + STEP_C).
 """
 import copy
+import errno
 import io
 import resource
 
@@ -19,26 +25,30 @@ from sim import core, seams, seeds
 from sim.core import Dev, Outcome
 from sim.oracle import where
 from sim.pdfwriter import Name, Real, Ref, Str, Stream
+from sim.scratch import Scratch
 
 ID = "C13"
 LEVEL = "fault_enumeration"
 RULE = (
     "a case = one seed document with one fault (site x kind, payload position x kind, or truncation offset), run "
-    "through extract_text, extract_pages and extract_text_to_fp(xml) under a step budget; the fault set is enumerated "
-    "from the 11 seed documents of sim/seeds.py and does not depend on VERIF_SEED (quick: every k-th fault with a "
-    "seed-chosen phase, all truncation points of two seed documents; thorough: all). distinct = distinct faulted "
+    "through extract_text, extract_pages, extract_text_to_fp(xml) and - for the seeds with images - the image export "
+    "extract_text_to_fp(output_dir) under a step budget; the fault set is enumerated "
+    "from the 12 seed documents of sim/seeds.py and does not depend on VERIF_SEED (quick: all faults, all truncation "
+    "points of two seed documents, a stride of sample truncations; thorough: all). distinct = distinct faulted "
     "byte strings; non-trivial = the faulted bytes differ from the seed document."
 )
-COMPONENTS_REAL = ["all of pdfminer reachable from high_level.extract_text / extract_pages / extract_text_to_fp(xml)", "zlib"]
-COMPONENTS_STUB = ["file object: io.BytesIO", "step clock: sys.monitoring PY_START|JUMP on pdfminer code objects", "address-space cap RLIMIT_AS", "producer: sim.seeds / sim.pdfwriter"]
+COMPONENTS_REAL = ["all of pdfminer reachable from high_level.extract_text / extract_pages / extract_text_to_fp(xml) / extract_text_to_fp(output_dir) incl. ImageWriter, BMPWriter, JBIG2 reader/writer, CCITT decoder", "zlib", "the real file system under a per-case scratch directory"]
+COMPONENTS_STUB = ["Pillow is absent: export formats that need it answer with the documented ImportError", "file-size cap RLIMIT_FSIZE 64 MB (simulated full disk)", "file object: io.BytesIO", "step clock: sys.monitoring PY_START|JUMP on pdfminer code objects", "address-space cap RLIMIT_AS", "producer: sim.seeds / sim.pdfwriter"]
 ASSUMPTIONS = [
     "documented exception family = subclasses of pdfminer.psexceptions.PSException (AssertionError is a violation)",
     "single faults only",
+    "ImportError with pdfminer's own 'Could not import Pillow' text is the documented answer of the export when the optional dependency is missing, not a leak",
+    "output bound: disk blocks allocated by the export <= 2000 x (len + 5000) bytes (Flate expands at most ~1032:1); holes of sparse files do not count",
     "work bound: steps <= STEP_K * (len + STEP_C) monitored events (constant set at 20x the largest ratio seen on the baseline enumeration (29))",
 ]
-PROBES = ["outcome:returned", "outcome:PSException", "truncation", "replace", "remove", "ref-loop", "payload"]
+PROBES = ["outcome:returned", "outcome:PSException", "outcome:needs-Pillow", "outcome:file-size-limit", "truncation", "replace", "remove", "ref-loop", "payload"]
 TIERS = {
-    "quick": {"budget_s": 90, "stride": 1},
+    "quick": {"budget_s": 400, "stride": 1},
     "thorough": {"budget_s": 1500, "stride": 1},
 }
 EXHAUSTIVE = {"thorough": True}
@@ -62,6 +72,11 @@ def setup():
     BASE = {name: s.base_writer().getvalue() for name, s in SEEDS.items()}
     try:
         resource.setrlimit(resource.RLIMIT_AS, (6 << 30, resource.RLIM_INFINITY))
+        # exported files: a write beyond 64 MB fails with EFBIG (reported as an OSError leak) instead of filling the disk
+        import signal
+
+        signal.signal(signal.SIGXFSZ, signal.SIG_IGN)
+        resource.setrlimit(resource.RLIMIT_FSIZE, (64 << 20, resource.RLIM_INFINITY))
     except (ValueError, OSError):
         pass
     _ready = True
@@ -476,7 +491,37 @@ def kind_of(f):
 
 
 # -------------------------------------------------------------------------------- execution
-def entry_points(data):
+IMAGE_SEEDS = ("images", "forms-images", "filters")
+
+
+class OutputUnbounded(Exception):
+    """Harness verdict: the export allocated more disk than OUT_K x (input size + STEP_C)."""
+
+
+OUT_K = 2000  # Flate expands at most ~1032:1, so a valid image never needs more than this per input byte
+
+
+def export_images(data):
+    """extract_text_to_fp with an output directory: every image of the document goes through ImageWriter.
+    The disk space actually allocated to the exported files (holes do not count) must stay proportional to the input."""
+    import os
+
+    sc = Scratch("verif-c13-")
+    try:
+        out = sc.makedirs("out")
+        try:
+            extract_text_to_fp(io.BytesIO(data), io.StringIO(), output_type="text", output_dir=out)
+        finally:
+            used = sum(os.lstat(os.path.join(out, n)).st_blocks * 512 for n in os.listdir(out))
+            if used > OUT_K * (len(data) + STEP_C):
+                raise OutputUnbounded("%d bytes allocated for a document of %d bytes" % (used, len(data)))
+    finally:
+        sc.cleanup()
+
+
+def entry_points(data, seed_name=""):
+    if seed_name in IMAGE_SEEDS:
+        yield "extract_text_to_fp(output_dir)", (lambda: export_images(data))
     yield "extract_text", (lambda: extract_text(io.BytesIO(data)))
     yield "extract_pages", (lambda: list(extract_pages(io.BytesIO(data))))
 
@@ -526,7 +571,7 @@ def run(tape, ctx, item=None):
     ctx.fault(f[0] if f[0] not in ("replace", "ref", "variant") else fk)
     ctx.probe({"truncate": "truncation", "replace": "replace", "variant": "replace", "xrefcycle": "ref-loop", "prevloop": "ref-loop", "xrefstmloop": "ref-loop", "inline": "replace", "cdict": "replace", "ccut": "payload", "lengthref": "ref-loop", "remove": "remove", "ref": "ref-loop" if f[0] == "ref" and f[3][:3] in ("loo", "rho") else "replace", "flip": "payload", "cut": "payload", "length": "payload", "cflip": "payload"}[f[0]])
     outcomes = []
-    for name, fn in entry_points(data):
+    for name, fn in entry_points(data, seed.name):
         seams.CLOCK.start(budget)
         sig = None
         try:
@@ -538,6 +583,23 @@ def run(tape, ctx, item=None):
             ctx.probe("outcome:PSException")
         except seams.SimBudgetExceeded as e:
             sig = "StepBudgetExceeded@%s" % where(e)
+        except ImportError as e:
+            # the documented answer when an export format needs the optional Pillow package, which is absent here
+            if "Could not import Pillow" in str(e) and "pdfminer.six[image]" in str(e):
+                outcomes.append("needs-Pillow")
+                ctx.probe("outcome:needs-Pillow")
+            else:
+                sig = "ImportError@%s" % where(e)
+        except OutputUnbounded as e:
+            sig = "OutputUnbounded@export"
+        except OSError as e:
+            # the harness caps the size of a written file (RLIMIT_FSIZE, the simulated full disk): a declared geometry may
+            # legitimately ask for a larger (sparse) file; what was really allocated is judged by OutputUnbounded above
+            if e.errno == errno.EFBIG:
+                outcomes.append("file-size-limit")
+                ctx.probe("outcome:file-size-limit")
+            else:
+                sig = "OSError@%s" % where(e)
         except RecursionError as e:
             sig = "RecursionError@%s" % where(e)
         except MemoryError as e:
